@@ -48,7 +48,13 @@ class OKPBinding(CryptographyBinding):
             raise ValueError('Invalid crv value: "{}"'.format(obj["crv"]))
         crv_key: t.Type[PrivateOKPKey] = PRIVATE_KEYS_MAP[obj["crv"]]
         d = urlsafe_b64decode(to_bytes(obj["d"]))
-        return crv_key.from_private_bytes(d)
+        key = crv_key.from_private_bytes(d)
+        # "x" is kept as the public part of the imported key (exports, thumbprint),
+        # it must be decodable and belong to "d"
+        x = urlsafe_b64decode(to_bytes(obj["x"]))
+        if key.public_key().public_bytes(Encoding.Raw, PublicFormat.Raw) != x:
+            raise ValueError('Invalid OKP key: "x" does not match "d"')
+        return key
 
     @staticmethod
     def import_public_key(obj: OKPDictKey) -> PublicOKPKey:
